@@ -246,6 +246,7 @@ type sideTables struct {
 	logger    map[*value]*loggerState
 	atomicVal map[*value]value
 	prng      map[*value]*prngState
+	pools     map[*value][]value
 	pcs       []stackEntry
 }
 
